@@ -44,8 +44,17 @@ Findings recorded here:
 * No state satisfying `AllocPre` on which the pass changes behaviour exists (`allocateTemps_preserves`), and
   16 800 generator states produced by the Rust `bcgen`/`irgen` suites satisfy the executable form `allocPreB`
   of `AllocPre` before and after `deadStoreElim` (run outside the kernel; `allocPreB_sound` is proved).
+* `AllocPre` is PROVED for the input the pass receives in `translateE` (§4): for every IR program and both values
+  of `fuse`, the state after `emitState` and `deadStoreElim` satisfies it (`allocPre_of_emit`), so in the pipeline
+  the pass preserves behaviour unconditionally (`allocateTemps_of_emit`).  No hypothesis on the IR program is
+  needed (no well-formedness, no bound).  The proof goes through invariants of the emission:
+  `LInv` (local facts), `RInv` (every computed value is read before its `calc` ends; straight-line region),
+  `FInv` (loop frames and `outer_accessed`: back edges), `VInv` (only values that are visible – created after
+  the last table reset, not inside a closed conditional block, after every pointer move – are ever read: forward
+  edges and pointer moves).
 -/
 import Hpbf.Proofs.C02AllocEx
+import Hpbf.Proofs.C02AllocEmitAll
 
 namespace Hpbf
 namespace C02
@@ -200,6 +209,63 @@ example : AllocPre exMonoBad := exMonoBad_pre
 example : allocErr 1 exMonoBad = some "allocate_temps:replace:replacements.get.unwrap" :=
   alloc_shrunk_extension_panics
 
+/-! ### 4. The precondition holds in the pipeline -/
+
+section pipeline
+open AEmit
+
+/-- `dead_store_elim` only blanks straight-line instructions and changes use counts … -/
+example (s s' : St w) (h : deadStoreElim s = .ok s') :
+    s'.live = s.live ∧ s'.writes = s.writes ∧
+    (∀ j : Nat, s'.insts[j]? = s.insts[j]? ∨
+      (s'.insts[j]? = some Instr.noop ∧ ∃ x, s.insts[j]? = some x ∧ plain x = true)) ∧
+    (∀ t : Nat, (s'.ranges[t]? = none ∧ s.ranges[t]? = none) ∨
+      ∃ r r', s.ranges[t]? = some r ∧ s'.ranges[t]? = some r' ∧
+        r'.created = r.created ∧ r'.firstUse = r.firstUse ∧ r'.lastUse = r.lastUse) :=
+  let d := deadStoreElim_dseLike h
+  ⟨d.live, d.writes, d.insts, d.ranges⟩
+/-- … and such changes keep `AllocPre`. -/
+example (s s' : St w) (hp : AllocPre s) (h : DseLike s s') : AllocPre s' := allocPre_of_dseLike hp h
+
+/-- Loop back edges (`brnz`) of generator output. -/
+example (prog : Ir.Block w) (fuse : Bool) (s : St w) (h : emitState prog fuse = .ok s) (j : Nat) (cnd off : Int)
+    (k' : Nat) (hj : s.insts[j]? = some (.brnz cnd off)) (hk : (j : Int) + off = (k' : Int)) (t : Nat)
+    (ht : InRange s t k') : InRange s t j := flowBack_of_emit h j cnd off k' hj hk t ht
+/-- Forward edges (`brz`) of generator output. -/
+example (prog : Ir.Block w) (fuse : Bool) (s : St w) (h : emitState prog fuse = .ok s) (j : Nat) (cnd off : Int)
+    (k' : Nat) (hj : s.insts[j]? = some (.brz cnd off)) (hk : (j : Int) + off = (k' : Int)) (t : Nat)
+    (ht : InRange s t k') : InRange s t j := flowFwd_of_emit h j cnd off k' hj hk t ht
+/-- No temporary is in range at a pointer move of generator output. -/
+example (prog : Ir.Block w) (fuse : Bool) (s : St w) (h : emitState prog fuse = .ok s) (t j : Nat) (ins : Instr w)
+    (ht : InRange s t j) (hj : s.insts[j]? = some ins) : ptrStable ins = true := ptr_of_emit h t j ins ht hj
+/-- Between a computation and the store that is its recorded first use there is only straight-line code, and no
+branch lands there. -/
+example (prog : Ir.Block w) (fuse : Bool) (s : St w) (h : emitState prog fuse = .ok s)
+    (i : Nat) (op : BcGen.Op) (t : Nat) (s0 s1 : Loc w) (f : Nat) (m : Int) (src : Loc w)
+    (hc : Cand s i op t s0 s1 f m src) :
+    (∀ (j : Nat) (x : Instr w), i < j → j < f → s.insts[j]? = some x → plain x = true) ∧
+    (∀ (j : Nat) (x : Instr w) (off : Int), s.insts[j]? = some x → branchOff? x = some off →
+      ¬ ((i : Int) < (j : Int) + off ∧ (j : Int) + off ≤ (f : Int))) :=
+  region_of_emit h i op t s0 s1 f m src hc
+
+/-- **Generator output satisfies the precondition**, before … -/
+example (prog : Ir.Block w) (fuse : Bool) (s : St w) (h : emitState prog fuse = .ok s) : AllocPre s :=
+  allocPre_of_emitState h
+/-- … and after `dead_store_elim`. -/
+example (prog : Ir.Block w) (fuse : Bool) (s1 s2 : St w) (h1 : emitState prog fuse = .ok s1)
+    (h2 : deadStoreElim s1 = .ok s2) : AllocPre s2 := allocPre_of_emit h1 h2
+
+/-- **`allocate_temps` as used by `translateE` preserves behaviour**, for every IR program. -/
+example (prog : Ir.Block w) (fuse : Bool) (numRegs : Nat) (s1 s2 s3 : St w)
+    (h1 : emitState prog fuse = .ok s1) (h2 : deadStoreElim s1 = .ok s2)
+    (h3 : allocateTemps numRegs s2 = .ok s3) :
+    s3.insts.size = s2.insts.size ∧ s3.live.size = s3.insts.size ∧ (∀ ins ∈ s3.insts, NoMemZero ins) ∧
+    (TargetsOk s2.insts → TargetsOk s3.insts) ∧
+    ∀ (t t' : Nat) (mn mx : Int), BehEq (progOf s2 t mn mx) (progOf s3 t' mn mx) :=
+  allocateTemps_of_emit h1 h2 h3
+
+end pipeline
+
 end C02
 end Hpbf
 
@@ -223,3 +289,14 @@ end Hpbf
 #print axioms Hpbf.C02.Alloc.alloc_firstLt_necessary
 #print axioms Hpbf.C02.Alloc.exMonoBad_pre
 #print axioms Hpbf.C02.Alloc.alloc_shrunk_extension_panics
+#print axioms Hpbf.C02.Alloc.allocPre_of_dseLike
+#print axioms Hpbf.C02.Alloc.deadStoreElim_dseLike
+#print axioms Hpbf.C02.AEmit.linv_of_emit
+#print axioms Hpbf.C02.AEmit.region_of_emit
+#print axioms Hpbf.C02.AEmit.flowBack_of_emit
+#print axioms Hpbf.C02.AEmit.flowFwd_of_emit
+#print axioms Hpbf.C02.AEmit.ptr_of_emit
+#print axioms Hpbf.C02.AEmit.emitRest_of_emit
+#print axioms Hpbf.C02.AEmit.allocPre_of_emitState
+#print axioms Hpbf.C02.AEmit.allocPre_of_emit
+#print axioms Hpbf.C02.AEmit.allocateTemps_of_emit
